@@ -11,6 +11,7 @@ import (
 	"os"
 	"path/filepath"
 	"sort"
+	"strings"
 	"sync"
 	"time"
 )
@@ -237,6 +238,9 @@ func dumpPair(res *pairResult) {
 		fmt.Printf(" client %d attached %d ms tracks=%v outcome=%q decode-errors=%v\n", cr.Attempt, cr.AttachMs, cr.TracksReported, cr.Outcome, cr.DecodeErrors)
 		for _, e := range cr.Reqs {
 			fmt.Printf("   req %d %s?%s %s -> %d (%d bytes)\n", e.Seq, e.Path, e.Query, e.Range, e.Status, len(e.Body))
+			if strings.HasSuffix(e.Path, ".m3u8") && os.Getenv("E2E_DUMP_PLAYLISTS") != "" {
+				fmt.Println(string(e.Body))
+			}
 		}
 		for j, t := range cr.Tracks {
 			fmt.Printf("   track %d kind %s rate %d name %q lang %q default %v params %s: %d callbacks\n", j, kindNames[t.Kind], t.ClockRate, t.Name, t.Lang, t.Default, t.Params, len(t.Units))
